@@ -79,7 +79,7 @@ func RunConc(seed int64, senders, perSender int, withBroker bool) []Mismatch {
 			for i := 0; i < perSender; i++ {
 				ord := int(atomic.AddInt64(&ordc, 1))
 				id := fmt.Sprintf("g%d", r.Intn(4))
-				e := &eventlogger.Event{Type: "t", Payload: &cpay{ID: id, Flush: r.Intn(5) == 0, Ord: ord, cc: cc}, Formatted: map[string][]byte{}}
+				e := &eventlogger.Event{Type: "t", CreatedAt: stamp(ord), Payload: &cpay{ID: id, Flush: r.Intn(5) == 0, Ord: ord, cc: cc}, Formatted: map[string][]byte{}}
 				func() {
 					defer func() {
 						if p := recover(); p != nil {
